@@ -12,12 +12,14 @@ FAMILIES = {'Clayton': 'copulas.bivariate.clayton.Clayton', 'Frank': 'copulas.bi
 BATCH_REDUCTIONS = {'all', 'any', 'sum', 'max', 'min', 'mean', 'std', 'prod', 'argmax', 'argmin', 'sort', 'argsort', 'cumsum',
                     'median', 'unique', 'ptp', 'var', 'cumprod', 'nanmax', 'nanmin'}
 # Reductions over the batch that were read by hand and cannot change a row of a batch inside the property's quantifier.
+# Keys are written with the canonical names U, V for the two columns; candidates are compared through their AC normal
+# form with local temporaries inlined, so renaming locals or reordering operands does not create a "new" candidate.
 ROW_TRIAGE = {
     ('Clayton', 'cumulative_distribution', '(V == 0).all() or (U == 0).all()'):
         'equal-value shortcut: taken only when every row has u=0 (or every row v=0), where each row is 0 anyway',
-    ('Clayton', 'percent_point', '(b == 0).all()'):
+    ('Clayton', 'percent_point', '(np.power(V, self.theta) == 0).all()'):
         'needs V**theta == 0 for every row, i.e. v == 0 everywhere: outside the quantifier (v >= 1e-4, theta <= 8)',
-    ('Clayton', 'partial_derivative', '(A == np.inf).any()'):
+    ('Clayton', 'partial_derivative', '(np.power(V, -self.theta - 1) == np.inf).any()'):
         'needs v**(-theta-1) == inf, impossible for theta <= 8 and v >= 1e-4 (at most 1e36)',
 }
 
@@ -77,7 +79,19 @@ def row_independence(ctx, rep, rule, methods):
                     par = c._parent
                     if not (isinstance(par, ast.Call) and call_name(par) in ('range', 'zeros', 'ones', 'full', 'empty')):
                         found.append(c)
-            # group by the enclosing test / statement
+            # group by the enclosing test / statement; compare with the triage table through normal forms
+            from ..exprnf import NF
+            names = split_names(prog, fn)
+            ren = {names[0]: 'U', names[1]: 'V'} if names else {}
+            nfc = NF(prog, fn, rename=ren)
+            table = {}
+            for (tfam, tmeth, ttext), reason in ROW_TRIAGE.items():
+                if (tfam, tmeth) == (fam, method):
+                    try:
+                        tnode = ast.parse(ttext.replace('self.', fn.self_name + '.'), mode='eval').body
+                        table[repr(NF(prog, fn, rename={'U': 'U', 'V': 'V'}).nf(tnode))] = (ttext, reason)
+                    except SyntaxError:
+                        pass
             seen = set()
             for c in found:
                 top = c
@@ -88,9 +102,10 @@ def row_independence(ctx, rep, rule, methods):
                 if construct in seen:
                     continue
                 seen.add(construct)
-                tri = ROW_TRIAGE.get((fam, method, construct))
-                if tri:
-                    rep.triaged(rule, fn, stmt, f'batch reduction `{construct}` - triaged: {tri}', construct=f'{fam}.{method}: {construct}')
+                expr = stmt.test if isinstance(stmt, (ast.If, ast.While)) else top
+                hit = table.get(repr(nfc.nf(expr)))
+                if hit:
+                    rep.triaged(rule, fn, stmt, f'batch reduction `{construct}` - triaged: {hit[1]}', construct=f'{fam}.{method}: {hit[0]}')
                 else:
                     rep.bad(rule, fn, stmt, f'`{construct}` reduces over the batch: the value of one row can depend on the other rows '
                             'of the same call', construct=f'{fam}.{method}: {construct}')
